@@ -370,7 +370,9 @@ func sharedWork(file []byte) {
 		j, _ := gen.BuildJPEG([]gen.JSeg{gen.SOI(), gen.JFIF(), gen.ICCSeg(1, 1, prof), gen.DQT(0),
 			gen.SOF(0xC0, 8, 21, 34, gen.StdComps(3, 0x22)), gen.DHT(0, 0), gen.SOS(3, gen.EntropyBytes(60, 5)), gen.EOI()})
 		w, _ := gen.BuildWebP([]gen.WChunk{gen.VP8X(gen.VP8XICC, 55, 66), gen.WC("ICCP", prof), gen.VP8(55, 66, 0, 0, gen.VP8Body(40))}, -1)
-		others = [][]byte{file, j, w, gen.Payload(300, 1, false)}
+		others = [][]byte{file, j, w, gen.Payload(300, 1, false),
+			// streams cut inside a structure (the loaders' error paths run concurrently too)
+			j[:len(j)/2], j[:30], w[:len(w)/2], file[:len(file)/3], j[:len(j)-3]}
 	}
 	src := image.NewNRGBA(image.Rect(0, 0, 37, 29))
 	for i := range src.Pix {
@@ -443,7 +445,7 @@ func sharedWork(file []byte) {
 			a := ciexyz.AdaptBetweenXYYWhitePoints(ciexyy.D50, ciexyy.D65)
 			_ = a.Apply(ciexyz.Color{X: 0.3, Y: 0.4, Z: 0.5})
 			if file != nil {
-				for q := 0; q < 4; q++ {
+				for q := 0; q < len(others); q++ {
 					autometa.Load(bytes.NewReader(others[(k+q)%len(others)]))
 				}
 			}
